@@ -50,7 +50,14 @@ func (ps *PubSub) subscriptionCount(conn *net.Conn) int {
 	return count
 }
 
-func (ps *PubSub) Subscribe(_ context.Context, conn *net.Conn, channels []string, withPattern bool) {
+func (ps *PubSub) Subscribe(ctx context.Context, conn *net.Conn, channels []string, withPattern bool) {
+	ob := ps.subscribe(ctx, conn, channels, withPattern)
+	// The confirmations are written before the command returns, so that the reply to the connection's next
+	// command cannot overtake them. The table lock is not held while waiting for the connection.
+	ob.flush()
+}
+
+func (ps *PubSub) subscribe(_ context.Context, conn *net.Conn, channels []string, withPattern bool) *outbox {
 	ps.channelsRWMut.Lock()
 	defer ps.channelsRWMut.Unlock()
 
@@ -94,9 +101,7 @@ func (ps *PubSub) Subscribe(_ context.Context, conn *net.Conn, channels []string
 		}
 	}
 
-	// The confirmations are written before the command returns, so that the reply to the connection's next
-	// command cannot overtake them.
-	ob.flush()
+	return ob
 }
 
 func (ps *PubSub) Unsubscribe(_ context.Context, conn *net.Conn, channels []string, withPattern bool) []byte {
